@@ -7,4 +7,4 @@ S=$(mktemp -d /tmp/tri.XXXXXX)
 trap 'rm -rf "$S"' EXIT
 rsync -a --exclude .git "${REPO:-/repo}/" "$S/"
 cp /verif/tools/triage/zz_build_test.go.txt "$S/gen/zz_build_test.go"
-cd "$S" && env -u GOWORK -u GOTOOLCHAIN -u GOSUMDB GOFLAGS=-mod=mod GOPROXY=off TRI_GRAMMAR="$G" go test -v -vet=off -count=1 -run TestZZBuild ./gen 2>&1 | grep -v "^=== RUN" || true
+cd "$S" && env -u GOWORK -u GOTOOLCHAIN -u GOSUMDB GOFLAGS=-mod=mod GOPROXY=off TRI_GRAMMAR="$G" TRI_KEEP="${TRI_KEEP:-}" go test -v -vet=off -count=1 -run TestZZBuild ./gen 2>&1 | grep -v "^=== RUN" || true
